@@ -155,6 +155,37 @@ def monitor_c04(ctx, scn, tv):
                               (scn["id"], tv.trace.get("_choices"), sid, kind, f, "missing" if cur is None else "stale", p["id"], pst),
                               {"scenario": scn, "choices": tv.trace.get("_choices")})
                 return
+        # ... and "in place" is meant all the way down: a statement between this one and a producer - a stamp file, an alias - that
+        # has nothing to do itself is up to date only when what IT waits for (order-only inputs included) is; so every statement
+        # below this one, through inputs of every kind, that runs in this build at all has finished before this one starts
+        # (validations are not inputs; recorded discoveries of the statements in between are left to the direct check above)
+        seen_f, work, below = set(), list(g.all_inputs(s)), {}
+        while work:
+            f = work.pop()
+            if f in seen_f:
+                continue
+            seen_f.add(f)
+            p_ = g.producer.get(f)
+            if p_ is None:
+                continue
+            below[p_["id"]] = p_
+            work.extend(g.all_inputs(p_))
+        for pid, p_ in below.items():
+            if p_["kind"] == "phony" or pid == sid:
+                continue
+            o_ = p_["outs"][0]
+            js = [j for j, e2 in enumerate(tv.events) if e2["e"] == "S" and e2["o"] == o_]
+            if not js:
+                continue
+            nchecks += 1
+            fin_ok = any(e2["e"] == "F" and e2["o"] == o_ and e2.get("status") == 0 for e2 in tv.events[:i])
+            if not fin_ok:
+                pst = "not-started-yet" if js[0] > i else ("running" if not any(e2["e"] == "F" and e2["o"] == o_ for e2 in tv.events[:i]) else "failed")
+                ctx.violation("C04/input-not-ready/transitive/producer-%s" % pst,
+                              "scenario %s choices=%s: %s started while %s, which it depends on through %s, was %s" %
+                              (scn["id"], tv.trace.get("_choices"), sid, pid, "other statements" if o_ not in g.all_inputs(s) else "a direct input", pst),
+                              {"scenario": scn, "choices": tv.trace.get("_choices")})
+                return
         if ev.get("nodirs"):
             ctx.violation("C04/directory-missing", "scenario %s: %s started, directories missing for %s" % (scn["id"], sid, ev["nodirs"]),
                           {"scenario": scn, "choices": tv.trace.get("_choices")})
